@@ -2,4 +2,5 @@ INIT Init
 NEXT Next
 CONSTANT Pairs = TRUE
 CONSTANT PairLimit = 60
+CONSTANT RuleLimit = 3000
 CHECK_DEADLOCK FALSE
